@@ -56,6 +56,9 @@ func zzH05_positionOnce() {
 	p1 := fn.Position(q)
 	zzWriteLogStop()
 	zzAssert(zzWritesInto(fn) == 0, "C05.position.first_call_writes_only_under_once")
+	// no cell initialised under the Once is read before this caller has passed lntOnce.Do
+	// (such a read would race with a concurrent first caller that is still decoding)
+	zzAssert(zzRacyReads(fn) == 0, "C05.position.no_read_before_once")
 	decoded := len(fn.lnt)
 	zzAssert(decoded == k, "C05.position.decoded")
 	var first *pclinecol
